@@ -7,7 +7,7 @@ PROP = dict(
                "paging loops (limit+previous, limit+offset) are run to exhaustion and must concatenate to the unpaged result. Exploration, not proof.",
     level_note="Trusted: Go toolchain, rapid, the model in gpql_model_test.go / c16_test.go. Single node; unkeyed fields only. GroupBy paging by `previous` is only "
                "generated when no child carries its own limit/column (the documented protocol is ambiguous there). For MinRow/MaxRow only the row id and count>0 are "
-               "compared (the property does not define the count). Time ranges use bounds aligned to the field's smallest time unit; quantum 'H' alone is not generated (D21).",
+               "compared (the property does not define the count). Time ranges use bounds aligned to the field's smallest time unit.",
     rule="distinct = hash of schema + data + mutation program + call texts. non-trivial = at least two shards hold different row sets of the queried field, or a "
          "paging loop of >= 3 pages, or a GroupBy whose inner iterator wraps (>= 2 first-level rows with groups), or a row that was set and emptied again.",
     assumptions=["reference model = harness/pkg/server/gpql_model_test.go + c16_test.go, grounded in docs/query-language.md (Rows, Group By)",
